@@ -272,3 +272,103 @@ def small_containers():
     out.append({1: "a", "ab": {}, None: 0})
     out.append({1.5: 2, True: "a", "": None})
     return out
+
+
+# ------------------------------------------------------------------ path recipes
+KEY_KINDS = [("key", "none"), ("key", "none"), ("key", "length"), ("key", "dtype")]
+INDEX_KINDS = [("index", "none")]
+VALUE_KINDS = [("value", "none"), ("value", "none"), ("value", "length"), ("value", "dtype")]
+
+
+def datum_arg(rng, kinds, prims, p_none=0.4, p_prim=0.3, depth=2):
+    r = rng.random()
+    if r < p_none:
+        return None
+    if r < p_none + p_prim and prims:
+        return ("prim", rng.choice(prims))
+    return tree_recipe(rng, depth=rng.randint(0, depth), kinds=kinds, null_p=0.1)
+
+
+def part_recipe(rng, node=None, simple=0.5):
+    """a container part recipe, biased to match something in `node` when given"""
+    keys, idxs = [], []
+    if isinstance(node, dict):
+        keys = [k for k in node.keys() if k is not None]
+    if isinstance(node, list):
+        idxs = list(range(len(node)))
+    rk = rng.choice(["map", "list", "mol"])
+    if node is not None and rng.random() < 0.75:
+        rk = rng.choice(["map", "mol"]) if isinstance(node, dict) else rng.choice(["list", "mol"])
+    if rng.random() < simple * 0.5:
+        return {"rk": rk, "key": None, "index": None, "value": None, "cond": None, "label": None}
+    key = index = None
+    if rk in ("map", "mol"):
+        key = datum_arg(rng, KEY_KINDS, keys or STR_KEYS)
+    if rk in ("list", "mol"):
+        index = datum_arg(rng, INDEX_KINDS, idxs or [0, 1, 2])
+    value = datum_arg(rng, VALUE_KINDS, [0, 1, "a", 2.5], p_none=0.6, p_prim=0.1)
+    cond = None
+    if rng.random() < 0.25:
+        ck = list(VALUE_KINDS)
+        if rk == "map" and rng.random() < 0.4:
+            ck += KEY_KINDS
+        if rk == "list" and rng.random() < 0.4:
+            ck += INDEX_KINDS
+        cond = tree_recipe(rng, depth=rng.randint(0, 2), kinds=ck, null_p=0.15)
+    label = rng.choice([None, None, None, "lab", "x"])
+    return {"rk": rk, "key": key, "index": index, "value": value, "cond": cond, "label": label}
+
+
+def prim_part(rng, node):
+    if isinstance(node, dict) and node and rng.random() < 0.85:
+        ks = [k for k in node.keys() if isinstance(k, (str, int, float, bool))]
+        if ks:
+            return ("prim", rng.choice(ks))
+    if isinstance(node, list) and node and rng.random() < 0.85:
+        return ("prim", rng.randrange(len(node)))
+    return ("prim", rng.choice(STR_KEYS + [0, 1, 2, 1.5, True, 5]))
+
+
+def path_recipe(rng, doc, maxlen=4, p_prim=0.6):
+    """list of part recipes, guided by the document so that selections are often non-empty"""
+    parts = []
+    node = doc
+    n = rng.choice([0, 1, 1, 2, 2, 3, 3, 4][:2 + 2 * maxlen])
+    for _ in range(n):
+        if rng.random() < p_prim:
+            p = prim_part(rng, node)
+            parts.append(p)
+            try:
+                node = node[p[1]]
+            except Exception:
+                node = None
+        else:
+            parts.append(part_recipe(rng, node))
+            if isinstance(node, dict) and node:
+                node = rng.choice(list(node.values()))
+            elif isinstance(node, list) and node:
+                node = rng.choice(node)
+            else:
+                node = None
+    return parts
+
+
+def build_arg(x):
+    if x is None:
+        return None
+    if x[0] == "prim":
+        return x[1]
+    return build_tree(x)
+
+
+def build_part(p):
+    import valida.datapath as dp
+
+    if isinstance(p, tuple) and p[0] == "prim":
+        return p[1]
+    kw = {"value": build_arg(p["value"]), "condition": build_arg(p["cond"]), "label": p["label"]}
+    if p["rk"] == "map":
+        return dp.MapValue(key=build_arg(p["key"]), **kw)
+    if p["rk"] == "list":
+        return dp.ListValue(index=build_arg(p["index"]), **kw)
+    return dp.MapOrListValue(key=build_arg(p["key"]), index=build_arg(p["index"]), **kw)
